@@ -91,7 +91,7 @@ class Overlay:
             elif kind == 'loop':
                 self.loops[(args[0], int(args[1]))] = text
             elif kind == 'ghost':
-                if args[1] in ('loop-start', 'loop-end', 'fn-start', 'fn-end'):
+                if args[1] in ('loop-start', 'loop-end', 'loop-before', 'fn-start', 'fn-end'):
                     pat, rep = '<%s>' % args[1], text
                 else:
                     pat, rep = self._split3(buf)
@@ -529,7 +529,7 @@ def _decorate_fn(ov, key, text, log):
         if g['fn'] != key:
             continue
         check_ghost_only(g['text'], '%s ghost@%r' % (key, g['anchor'][:40]))
-        if g['where'] in ('loop-start', 'loop-end', 'fn-start', 'fn-end'):
+        if g['where'] in ('loop-start', 'loop-end', 'loop-before', 'fn-start', 'fn-end'):
             # structural anchor: `@@ghost f loop-end nth=k` — robust against edits of the statements themselves
             mask = code_mask(text)
             if g['where'] == 'fn-start':
@@ -555,6 +555,12 @@ def _decorate_fn(ov, key, text, log):
             if g['nth'] >= len(loops):
                 raise Undecided('ghost loop anchor lost in %s: loop %d' % (key, g['nth']))
             bo = loops[g['nth']][1]
+            if g['where'] == 'loop-before':
+                # directly before the statement that is the k-th loop (setup ghosts that name locals defined above the loop)
+                kw = loops[g['nth']][0]
+                ls = text.rfind('\n', 0, kw) + 1
+                text = text[:ls] + g['text'] + '\n' + text[ls:]
+                continue
             if g['where'] == 'loop-start':
                 text = text[:bo + 1] + '\n' + g['text'] + '\n' + text[bo + 1:]
             else:
